@@ -503,8 +503,8 @@ PROPS["C11"] = dict(
     quick=[
         R("sync", "plain", 8, 400, ["mode=serial"]),
         R("sync", "asan", 4, 60, ["mode=serial"]),
-        R("sync", "tsan", 4, 40, ["mode=jitter"]),
-        R("sync", "asan", 2, 30, ["mode=jitter"]),
+        R("sync", "tsan", 4, 40, ["mode=jitter"], timeout=150),
+        R("sync", "asan", 2, 30, ["mode=jitter"], timeout=150),
     ],
     thorough=[
         R("sync", "plain", 16, 4000, ["mode=serial"], timeout=7200),
@@ -529,4 +529,37 @@ PROPS["C11"] = dict(
                       "sem_ops_replayed", "barrier_generations", "schedule_steps"]),
     assumptions=[_SCHED_ASSUME, "a deadlock (no runnable logical thread) or a thread left alive at the end of a scenario is "
                  "a violation; a wall-clock watchdog on the real-thread runs is inconclusive", SAN_ASSUME],
+)
+
+# ----------------------------------------------------------------------------- C10
+PROPS["C10"] = dict(
+    units={"pool": dict(src=["harness/C10_thread_pool.cpp"], tlx=["tlx/thread_pool.cpp"], flags=_SCHED_FLAGS)},
+    quick=[
+        R("pool", "plain", 8, 150, ["mode=serial"]),
+        R("pool", "asan", 4, 30, ["mode=serial"]),
+        R("pool", "tsan", 4, 20, ["mode=jitter"], timeout=150),
+        R("pool", "asan", 2, 20, ["mode=jitter"], timeout=150),
+    ],
+    thorough=[
+        R("pool", "plain", 16, 6000, ["mode=serial"], timeout=7200),
+        R("pool", "asan", 8, 600, ["mode=serial"], timeout=7200),
+        R("pool", "tsan", 8, 300, ["mode=jitter"], timeout=3600),
+        R("pool", "asan", 4, 300, ["mode=jitter"], timeout=3600),
+    ],
+    rule="a case = 30 scenarios, each under one schedule. graph: pool of 1-4 (jitter: 1-8) workers, 1-3 rounds of 0-3 "
+         "root jobs that enqueue children (depth 0-2, fan-out 1-3) with pause points inside, optionally 1-2 outside "
+         "threads enqueuing concurrently and a second concurrent loop_until_empty() waiter; ends by draining, by "
+         "destroying the pool with jobs pending, or by terminate() then destruction. terminate: terminate() from a "
+         "job, from an outside thread, or from outside while every worker is idle, with one or two "
+         "loop_until_terminate() waiters. rendezvous (serial): k <= p jobs that wait for each other, enqueued back to "
+         "back from outside or from a job. Checked from the recorded tickets: no job twice, every job enqueued before "
+         "a loop_until_empty() call done at its return, the waiter's interval not covered by pending jobs, done() and "
+         "plain writes after a quiet return, no job running when loop_until_terminate()/~ThreadPool return; dsched "
+         "reports deadlocks. mode=serial: seeded controlled schedules (random, sticky, PCT-style); mode=jitter: real "
+         "threads with seeded delays under TSan/ASan. Classes: scenario shape.",
+    require=dict(any=["pool_scenarios", "jobs_executed", "terminate_scenarios", "rendezvous_scenarios",
+                      "waits_that_blocked", "schedule_steps"]),
+    assumptions=[_SCHED_ASSUME, "jobs dropped by terminate()/destruction are allowed to never run (the property exempts a "
+                 "terminated pool); a deadlock is a violation, a wall-clock watchdog on real-thread runs is inconclusive",
+                 SAN_ASSUME],
 )
